@@ -792,13 +792,23 @@ class Tensor(object):
                     cores[-1] = cores[-1][:, 0]
                 else:
                     cores[-1] = cores[-1][0]
-        # A CP factor at either end was turned into a TT core whose outer bond is open: close it by summation (as
-        # decompression would), since orthogonalization, rounding and the automata routines expect boundary rank 1
+        # A CP factor at either end of ONE operand was turned into a TT core whose outer bond (of size its CP rank) is
+        # open: close that part of the product's outer bond by summation (as decompression would), since
+        # orthogonalization, rounding and the automata routines expect boundary rank 1. An outer bond that an operand
+        # carries on purpose (e.g. the last bond of weight_one_hot) is left alone.
         k = 1 if self.batch else 0
-        if cores[0].dim() == m + 1 and cores[0].shape[k] > 1:
-            cores[0] = torch.sum(cores[0], dim=k, keepdim=True)
-        if cores[-1].dim() == m + 1 and cores[-1].shape[-1] > 1:
-            cores[-1] = torch.sum(cores[-1], dim=-1, keepdim=True)
+        for n, ax in ((0, k), (len(cores) - 1, -1)):
+            cp1 = this.cores[n].dim() == m
+            cp2 = other.cores[n].dim() == m
+            if cp1 == cp2:
+                continue
+            r1 = this.cores[n].shape[-1] if cp1 else this.cores[n].shape[ax]
+            r2 = other.cores[n].shape[-1] if cp2 else other.cores[n].shape[ax]
+            c = cores[n]
+            ax = ax % c.dim()
+            c = c.reshape(list(c.shape[:ax]) + [r1, r2] + list(c.shape[ax + 1 :]))
+            c = torch.sum(c, dim=ax if cp1 else ax + 1)  # Sum over the CP operand's part of the bond
+            cores[n] = c
         return tn.Tensor(cores, Us=Us, batch=self.batch)
 
     def __truediv__(self, other: Union[Any, torch.Tensor]):
